@@ -554,12 +554,15 @@ theorem zlibcut_prefix (dict s T : Bytes) (n : Nat) (limit : Int) (r : CutResult
     r.decodedLen ≤ T.size ∧ r.written = T.extract 0 r.decodedLen :=
   ZlibCut.Cut_prefix_all dict s T n limit r hz hT h
 
-/-- `zlibcut.Cut` keeps the zlib header (CMF, FLG — hence the FDICT bit). -/
-theorem zlibcut_keeps_header_partial (dict s T : Bytes) (n : Nat) (limit : Int) (r : CutResult)
-    (hz : Spec.zlibDecode dict s = some (T, n)) (hd : (s.getD 1 0).toNat / 32 % 2 = 1)
-    (hT : T.size + 32768 < 2147483648) (h : ZlibCut.Cut s limit = .ok r) :
-    (r.encoded.extract 0 r.encodedLen).getD 1 0 = s.getD 1 0 :=
-  (ZlibCut.Cut_prefix_fdict dict s T n limit r hz hd hT h).2.2.2
+/-- `zlibcut.Cut` keeps the FLG byte of the zlib header (hence the FDICT bit) — for every valid zlib stream. -/
+theorem zlibcut_keeps_flg (dict s T : Bytes) (n : Nat) (limit : Int) (r : CutResult)
+    (hz : Spec.zlibDecode dict s = some (T, n)) (hT : T.size + 32768 < 2147483648)
+    (h : ZlibCut.Cut s limit = .ok r) :
+    (r.encoded.extract 0 r.encodedLen).getD 1 0 = s.getD 1 0 := by
+  by_cases hd : (s.getD 1 0).toNat / 32 % 2 = 1
+  · exact (ZlibCut.Cut_prefix_fdict dict s T n limit r hz hd hT h).2.2.2
+  · rw [ZlibCut.zlibDecode_nodict dict s hd] at hz
+    exact (ZlibCut.Cut_prefix s T n limit r hz hd (by omega) h).2.2.2
 
 /-- non-vacuity: "0123456789hello wuffs" deflated by zlib with the preset dictionary "hello wuffs" (25
 bytes, FDICT set, the tail is a match into the dictionary) meets the hypotheses of `zlibcut_prefix_fdict`. -/
